@@ -66,7 +66,7 @@ def g12s_cmds(rng, tier, params):
         if r:
             d = (-k * e * pow(r, -1, q)) % q
             if d:
-                out.append("g12s name=%s d=%s k=%s hash=%s alts=%s cls=s=0-on-first-nonce" % (name, hx(d, mo), hx(k, mo) + hx(k2, mo)[1:], be(H, mo), "s=0,r^0"))
+                out.append("g12s name=%s d=%s k=%s hash=%s alts=%s cls=s=0-on-first-nonce" % (name, hx(d, mo), hx(k, mo) + hx(k2, mo)[1:], be(H, mo), "s=0,r^0") + " redraw=1")
     return out
 
 
@@ -106,7 +106,7 @@ def dstu_cmds(rng, tier, params):
         hcls = {"h=0": (0, no), "h=ones": ((1 << (8 * no)) - 1, no), "h=short": (rng.getrandbits(64), 8), "h=long": (rng.getrandbits(512), 64),
                 "h=exact": (rng.getrandbits(8 * no), no)}
         lds = [16 * ono, 16 * ono + 16, 1024]
-        alts = "r^0,s^0,r^%d,s^%d,r=0,s=0,r=q,s=q,r+q,s+q,r=max,h^0,h^%d,h^%d,h=0,h=1,hlen+1,hlen-1,Q-,x^0,y^1,ld+16,ld-16" % (nb - 2, nb // 2, m - 1, min(m, 8 * no - 1))
+        alts = "r^0,s^0,r^%d,s^%d,r=0,s=0,r=q,s=q,r+q,s+q,r=max,h^0,h^%d,h^%d,h=0,h=1,hlen+1,hlen-1,Q-,x^0,y^1,ld+16,ld-16,rpad,spad" % (nb - 2, nb // 2, m - 1, min(m, 8 * no - 1))
         for i, (dc, hc) in enumerate(thin([(x, y) for x in dcls for y in hcls], quick, 5)):
             for ld in (lds if not quick else [lds[i % 3]]):
                 hv, hl = hcls[hc]
